@@ -72,7 +72,9 @@ FLOORS = {
     "ep.goc.hit": 300, "ep.goc.err-failed": 40, "ep.split.inval": 100, "ep.split.inval.opAfterBump": 100,
     "ep.split.create": 80, "ep.split.create.invalInside": 80, "ep.split.janitor": 30, "ep.split.janitor.opBeforeClose": 30,
     "ep.write.err.fail": 40, "ep.reply": 200, "ep.track": 100,
-    "hp.outcome.reused": 200, "hp.outcome.dialled": 200, "hp.pkt.withWriteFailures": 100, "hp.kill": 30,
+    "hp.outcome.reused": 200, "hp.outcome.dialled": 200, "hp.pkt.withWriteFailures": 100, "hp.kill": 30, "hp.inval": 20, "hp.seq.healthAwareGroup": 20,
+    "krn.window": 60, "krn.coreClose": 5, "krn.opThroughClosedCore": 20,
+    "ep.tdone": 100, "ep.split.create.tdoneInside": 15, "ep.split.create.anyOpAfterPublish": 60, "ep.resetpool": 40,
     "ib.take": 80, "ib.read": 200, "key.scope.controlPlaneRouting": 300,
 }
 
